@@ -247,6 +247,20 @@ impl G {
                 let class = *self.r.pick(&["str", "str", "str", "num", "bool", "null"]);
                 let mut v = self.scalar(class, "none");
                 if let Some(prev) = vs.last() {
+                    // the same text under another kind (foo* next to *foo): batches must keep their
+                    // needles and kinds aligned
+                    if prev["t"] == "pat" && v["t"] == "pat" && prev["k"] != "regex" && prev["k"] != "any"
+                        && v["k"] != "regex" && v["k"] != "any" && self.r.chance(1, 4)
+                    {
+                        let a = str_of(&prev["a"]).unwrap_or_default();
+                        let ok_prefix = !a.is_empty() && !"?><='\"i".contains(a.chars().next().unwrap());
+                        if v["k"] != "prefix" || ok_prefix {
+                            if !(a.is_empty() && (v["k"] == "prefix" || v["k"] == "suffix")) {
+                                v["a"] = prev["a"].clone();
+                                v["ic"] = prev["ic"].clone();
+                            }
+                        }
+                    }
                     if prev["t"] == "pat" && v["t"] == "pat" && self.r.chance(1, 2) {
                         v["ic"] = prev["ic"].clone();
                         if prev["k"] == "regex" && v["k"] != "regex" && self.r.chance(1, 2) {
@@ -384,6 +398,62 @@ impl G {
         } else {
             json!({"t":"par","e":self.cond(names, quantifiable, depth - 1)})
         }
+    }
+
+    /// an or of ands whose atoms are one-key identifiers over a small pool of fields (so that the
+    /// matrix optimisation fires) and cast comparisons, field against constant and field against field
+    pub fn matrix_source(&mut self) -> J {
+        let fields = ["f", "g", "h", "n"];
+        let nid = 2 + self.r.below(4);
+        let mut ids = vec![];
+        let mut names = vec![];
+        for i in 0..nid {
+            let name = IDENTS[i].to_string();
+            let f = *self.r.pick(&fields);
+            let v = match self.r.below(6) {
+                0 => self.scalar("num", "none"),
+                1 => json!({"t":"null"}),
+                2 => json!({"t":"bool","b":self.r.chance(1, 2)}),
+                _ => self.pattern(true),
+            };
+            let mut es = vec![json!({"m":"none","c":0,"f":cps(f),"v":v})];
+            if self.r.chance(1, 3) {
+                let f2 = *self.r.pick(&fields);
+                if f2 != f {
+                    es.push(json!({"m":"none","c":0,"f":cps(f2),"v":self.pattern(false)}));
+                }
+            }
+            ids.push(json!([cps(&name), {"t":"map","es":es}]));
+            names.push(name);
+        }
+        let mut terms = vec![];
+        let nt = 2 + self.r.below(3);
+        for _ in 0..nt {
+            let na = 1 + self.r.below(3);
+            let mut atoms = vec![];
+            for _ in 0..na {
+                let a = if self.r.chance(1, 4) {
+                    let kind = *self.r.pick(&["int", "flt", "str"]);
+                    let op = if kind == "str" { "eq" } else { *self.r.pick(&["eq", "gt", "le"]) };
+                    let l = json!({"t":"cast","k":kind,"f":cps(*self.r.pick(&fields))});
+                    let r = if kind == "str" || self.r.chance(1, 2) {
+                        json!({"t":"cast","k":kind,"f":cps(*self.r.pick(&fields))})
+                    } else if kind == "int" {
+                        json!({"t":"const","n":int_node(&format!("{}", self.r.below(5)))})
+                    } else {
+                        json!({"t":"const","n":flt_node("1.5")})
+                    };
+                    json!({"t":"cmp","op":op,"l":l,"r":r})
+                } else {
+                    { let nm = self.r.pick(&names).clone(); json!({"t":"id","n":cps(&nm)}) }
+                };
+                atoms.push(a);
+            }
+            let t = atoms.into_iter().reduce(|l, r| json!({"t":"and","l":l,"r":r})).unwrap();
+            terms.push(if t["t"] == "and" { json!({"t":"par","e":t}) } else { t });
+        }
+        let cond = terms.into_iter().reduce(|l, r| json!({"t":"or","l":l,"r":r})).unwrap();
+        json!({"cond":cond,"ids":ids})
     }
 
     pub fn source(&mut self, depth: usize) -> J {
@@ -805,7 +875,7 @@ const COND_PIECES: &[&str] = &[
     "str(", "string(", "not(", ",", "1", "0", "2", "1.5", "==", "<", "<=", ">", ">=", "=", "f", "g",
     "android", "order", "nothing", "allow", "offline", "notable", "orbit", "andA", "Aand", "nota", "ora",
     "-", "-1", ".", "..", "1.2.3", "1.", ".5", "99999999999999999999", "9223372036854775807", "#x", "A[0]", "A.B",
-    "_", "all", "of", "int", "all(A)", "of(B, 1)", "of(B,0)", "int(f)", "flt(g)", "str(f)", "int(f) == 1", "flt(g) < 1.5",
+    "_", "all", "of", "int", "all(A)", "of(B, 1)", "of(B,0)", "Z", "all(Z)", "of(Z, 1)", "not(Z)", "int(Z)", "int(f)", "flt(g)", "str(f)", "int(f) == 1", "flt(g) < 1.5",
     "str(f) == str(g)", "int(f) >= int(g)",
 ];
 const COND_ODD: &[&str] = &["é", "É1", "😀", "&", "|", "\t", "\u{b}", "\u{a0}", "²", "٣", "Ａ", "ß", "!", "\"", "'", "%", "{", "}", "~", "\n"];
@@ -854,10 +924,11 @@ fn cond_soup(g: &mut G, odd: bool) -> String {
         let piece = piece.replace("\\t", "\t").replace("\\n", "\n").replace("\\u{b}", "\u{b}").replace("\\u{a0}", "\u{a0}");
         s.push_str(&piece);
         if i + 1 < n {
-            match g.r.below(6) {
-                0 => {}
-                1 => s.push_str("  "),
-                2 if odd => s.push('\t'),
+            match g.r.below(12) {
+                0 | 1 => {}
+                2 | 3 => s.push_str("  "),
+                // every character the tokeniser treats as whitespace: \t \n \x0b \x0c \r
+                4 => s.push(*g.r.pick(&['\t', '\n', '\u{b}', '\u{c}', '\r'])),
                 _ => s.push(' '),
             }
         }
@@ -1287,10 +1358,12 @@ pub fn gen_cases(topic: &str, seed: u64, n: usize, path: &str) -> Result<(), Str
     let topic = topic.strip_prefix("ic+").unwrap_or(topic);
     let mut g = G::new(seed ^ topic.bytes().fold(0u64, |a, b| a.wrapping_mul(131).wrapping_add(b as u64)));
     let mut w = BufWriter::new(File::create(path).map_err(|e| e.to_string())?);
+    let mut twin: Option<J> = None;
     for _ in 0..n {
         let mode = g.r.below(10);
         g.positive = matches!(topic, "opt" | "perm") && mode < 4;
-        let src = g.source(3);
+        let matrixy = matches!(topic, "opt" | "adv" | "pure" | "find") && g.r.chance(1, 4);
+        let src = if matrixy { g.matrix_source() } else { g.source(3) };
         let nd = 3 + g.r.below(4);
         let complete = matches!(topic, "opt" | "perm") && mode >= 4 && mode < 9;
         let docs: Vec<J> = (0..nd)
@@ -1324,10 +1397,44 @@ pub fn gen_cases(topic: &str, seed: u64, n: usize, path: &str) -> Result<(), Str
                        "plan":{"tri":false,"scope":"sw","sws":[[], [true,true,true,true], [true,false,false,true], [false,true,false,false]],"find":true}})
             }
             // C17: the same rule with its operands reordered (positive positions only)
+            "perm" if mode >= 7 => {
+                // one field, 3-5 members whose texts come from a pool of two words, so the same text
+                // appears under several kinds; every reordering must keep the verdicts
+                let words = [g.word(2, true) + "a", g.word(2, true) + "b"];
+                let n = 3 + g.r.below(3);
+                let fam_ic = g.r.chance(1, 3);
+                let mut vs: Vec<J> = vec![];
+                for _ in 0..n {
+                    let k = *g.r.pick(&["exact", "prefix", "suffix", "contains"]);
+                    let a = g.r.pick(&words).clone();
+                    let v = json!({"t":"pat","k":k,"ic": if g.r.chance(4, 5) { fam_ic } else { !fam_ic },"a":cps(&a)});
+                    if !vs.contains(&v) {
+                        vs.push(v);
+                    }
+                }
+                let quant = g.r.below(4);
+                let (m, c) = match quant { 0 => ("all", 0), 1 => ("of", 1 + g.r.below(vs.len())), _ => ("none", 0) };
+                let mk = |vs: &Vec<J>| json!({"cond":{"t":"id","n":cps("A")},"ids":[[cps("A"),{"t":"map","es":[{"m":m,"c":c,"f":cps("f"),"v":{"t":"list","vs":vs}}]}]]});
+                let src = mk(&vs);
+                let mut alts = vec![];
+                for _ in 0..3 {
+                    let mut p = vs.clone();
+                    shuffle(&mut g, &mut p);
+                    alts.push(mk(&p));
+                }
+                let mut docs = vec![];
+                for _ in 0..8 {
+                    let w = g.r.pick(&words).clone();
+                    let h = match g.r.below(5) { 0 => w.clone(), 1 => format!("x{}", w), 2 => format!("{}x", w), 3 => format!("x{}x", w), _ => w.to_uppercase() };
+                    docs.push(obj(vec![("f".into(), s_node(&h))]));
+                }
+                json!({"topic":"perm","oracle":true,"wt":true,"src":src,"alts":alts,"docs":docs,
+                       "plan":{"tri":false,"scope":"sw","sws":[[], [true,true,true,true]]}})
+            }
             "perm" => {
                 let alts: Vec<J> = (0..3).map(|_| permute_src(&mut g, &src)).collect();
                 json!({"topic":"perm","oracle":false,"wt":true,"src":src,"alts":alts,"docs":docs,
-                       "plan":{"tri":false,"sws":[[]]}})
+                       "plan":{"tri":false,"scope":"sw","sws":[[], [true,true,true,true], [false,false,false,true], [true,true,false,false]]}})
             }
             // C08: longer quantified lists with their explicit forms
             "quant" => {
@@ -1574,7 +1681,7 @@ pub fn gen_cases(topic: &str, seed: u64, n: usize, path: &str) -> Result<(), Str
             }
             // C12: repeats, prints, threads
             "pure" => json!({"topic":"pure","oracle":true,"wt":true,"src":src,"docs":docs,
-                             "plan":{"tri":false,"scope":"sw","sws":some_sws,"expr":true,"repeat":3,"threads":4}}),
+                             "plan":{"tri":false,"scope":"sw","sws":some_sws,"expr":true,"repeat":3,"threads":4,"again":true}}),
             // C13: validate() against the rule's own examples
             "val" => {
                 let mut tps = vec![];
@@ -1605,12 +1712,48 @@ pub fn gen_cases(topic: &str, seed: u64, n: usize, path: &str) -> Result<(), Str
                        "plan":{"tri":false,"scope":"sw","sws":[[], [true,true,true,true]],"ser":true,"via_value":true}})
             }
             // C11: every representation of the same logical document
+            "repr" if mode < 3 => {
+                // numeric predicates against 64-bit boundary values: representations differ most in
+                // how they carry integers (i64 / u64 / f64)
+                let ctext = match g.r.below(4) { 0 => "1".to_string(), 1 => "9223372036854775807".to_string(), 2 => "-1".to_string(), _ => g.int_text() };
+                let op = *g.r.pick(&["eq", "gt", "ge", "lt", "le"]);
+                let v = match g.r.below(3) {
+                    0 => json!({"m":"none","c":0,"f":cps("f"),"v":{"t":"cmp","op":op,"n":int_node(&ctext)}}),
+                    1 => json!({"m":"str","c":0,"f":cps("f"),"v":{"t":"pat","k":"contains","ic":false,"a":cps("0")}}),
+                    _ => json!({"m":"int","c":0,"f":cps("f"),"v":{"t":"cmp","op":op,"n":int_node(&ctext)}}),
+                };
+                let src = json!({"cond":{"t":"id","n":cps("A")},"ids":[[cps("A"),{"t":"map","es":[v]}]]});
+                let vals = ["0", "1", "-1", "127", "128", "255", "256", "-128", "-129", "32767", "32768", "65535", "65536",
+                            "2147483647", "2147483648", "4294967295", "4294967296", "-2147483648", "-2147483649",
+                            "9223372036854775807", "9223372036854775808", "18446744073709551615", "-9223372036854775808",
+                            "10000000000000000000", "9007199254740993"];
+                let mut docs = vec![];
+                for _ in 0..8 {
+                    let t = *g.r.pick(&vals);
+                    let val = if g.r.chance(1, 5) { json!({"t":"A","vs":[i_node(t), s_node("10")]}) } else { i_node(t) };
+                    docs.push(obj(vec![("f".into(), val)]));
+                }
+                json!({"topic":"repr","oracle":true,"wt":true,"src":src,"docs":docs,
+                       "plan":{"tri":false,"scope":"sw","sws":[[], [true,true,true,true]],
+                               "reprs":["json","jsontext","yamltext","hm","own","ownsigned","doc"]}})
+            }
             "repr" => json!({"topic":"repr","oracle":true,"wt":true,"src":src,"docs":docs,
                              "plan":{"tri":false,"scope":"sw","sws":[[], [true,true,true,true]],
                                      "reprs":["json","jsontext","yamltext","hm","own","ownsigned","doc"]}}),
             _ => return Err(format!("unknown topic {}", topic)),
         };
         let mut c = c;
+        if topic == "pure" {
+            // every second case is the TWIN of the one before: the same rule with every case flag
+            // flipped, on the same documents - identical pattern texts that must not share state
+            if let Some(prev) = twin.take() {
+                let mut t: J = prev;
+                flip_ic(&mut t["src"]);
+                c = t;
+            } else {
+                twin = Some(c.clone());
+            }
+        }
         if force {
             force_ic(&mut c["src"]);
             if let Some(a) = c.get_mut("alts") {
@@ -1622,6 +1765,27 @@ pub fn gen_cases(topic: &str, seed: u64, n: usize, path: &str) -> Result<(), Str
     }
     w.flush().map_err(|e| e.to_string())?;
     Ok(())
+}
+
+fn flip_ic(v: &mut J) {
+    match v {
+        J::Object(m) => {
+            if m.get("t").and_then(|t| t.as_str()) == Some("pat") {
+                let cur = m.get("ic").and_then(|b| b.as_bool()).unwrap_or(false);
+                // a prefix pattern whose text starts with 'i' cannot be written case-sensitively
+                let starts_i = m.get("k").and_then(|k| k.as_str()) == Some("prefix")
+                    && m.get("a").and_then(|a| a.as_array()).and_then(|a| a.first()).and_then(|c| c.as_u64()) == Some(105);
+                if !(cur && starts_i) {
+                    m.insert("ic".into(), J::Bool(!cur));
+                }
+            }
+            for (_, x) in m.iter_mut() {
+                flip_ic(x);
+            }
+        }
+        J::Array(a) => a.iter_mut().for_each(flip_ic),
+        _ => {}
+    }
 }
 
 fn force_ic(v: &mut J) {
